@@ -111,7 +111,12 @@ Exec(r0) ==
   THEN [r |-> Tag(r0, "EarlyReturn"), call |-> None, early |-> TRUE]
   ELSE
   LET starting == ~r0.eng /\ r0.se
-      r1 == IF starting THEN Tag([r0 EXCEPT !.start = now, !.eng = TRUE, !.pure = (r0.cur = sh.first)], "Start") ELSE r0
+      \* the machine (re)starts its clock; a state that was running while the machine was stopped (a must_finish
+      \* state selected by the default state or after done()) is entered afresh on the new clock
+      r1 == IF starting
+            THEN Tag([r0 EXCEPT !.start = now, !.eng = TRUE, !.pure = (r0.cur = sh.first),
+                                !.ran = IF r0.cur # None THEN [r0.ran EXCEPT ![r0.cur] = FALSE] ELSE r0.ran], "Start")
+            ELSE r0
       tm1 == now - r1.start
       s0 == r1.cur
       expired == s0 # None /\ r1.ran[s0] /\ r1.exp[s0] < tm1
